@@ -18,7 +18,7 @@ Faithful(a, m) ==
 Alloc(s, o, w, f, me) == [stored_food |-> s, outdoor_crops |-> o, seaweed |-> w, cell_sugar |-> Zero, scp |-> Zero,
                           greenhouse |-> Zero, fish |-> f, meat |-> me, milk |-> Zero]
 Sums == {SumF(Alloc(s, o, w, f, me), 9) : s \in V, o \in V, w \in V, f \in V, me \in {I(0), I(1)}}
-MCBegin == \E pf \in Sums : rb.kind = "none" /\ BeginR([kind |-> "humans", z |-> pf, pf |-> pf, kd |-> KD, swKcal |-> I(1), n |-> 2])
+MCBegin == \E pf \in Sums : rb.kind = "none" /\ BeginR([kind |-> "humans", z |-> pf, pf |-> pf, kd |-> KD, unchanged |-> TRUE, swKcal |-> I(1), n |-> 2])
 MCMonth == \E s \in V, o \in V, w \in V, f \in V, me \in {I(0), I(1)} :
              rb.kind # "none" /\ rmon < 2 /\ MonthR(Faithful(Alloc(s, o, w, f, me), rmon))
 MCEnd == rb.kind # "none" /\ ~ended /\ EndR
